@@ -43,7 +43,13 @@ def onSeg (q : Pt) (e : Seg) : Bool :=
   decide (rmin e.1.x e.2.x ≤ q.x) && decide (q.x ≤ rmax e.1.x e.2.x) &&
   decide (rmin e.1.y e.2.y ≤ q.y) && decide (q.y ≤ rmax e.1.y e.2.y)
 
-/-! ### the comparator -/
+/-! ### the comparator
+
+  Decides a Boolean formula over atom memberships for all points of the plane that are clear of the
+  edges, by a slab decomposition.  The checker VERIFIES its own preconditions per slab (every edge either
+  spans the slab or misses its interior, the spanning edges are ordered at both slab ends, all edges lie
+  between the outermost breakpoints), so that its soundness (Gbo/Proofs/Comparator.lean) does not depend
+  on how the breakpoints were found. -/
 
 /-- y of the (non-vertical) segment's line at abscissa x -/
 def yAt (e : Seg) (x : Rat) : Rat :=
@@ -69,107 +75,132 @@ def sortDedup (xs : List Rat) : List Rat := xs.foldl (fun acc x => insertSorted 
 structure Tagged where
   seg : Seg
   atom : Nat
-deriving Inhabited
+deriving Inhabited, DecidableEq
 
-def spans (e : Seg) (x0 x1 : Rat) : Bool :=
-  decide (rmin e.1.x e.2.x ≤ x0) && decide (x1 ≤ rmax e.1.x e.2.x) && decide (e.1.x ≠ e.2.x)
+def segMinX (e : Seg) : Rat := rmin e.1.x e.2.x
+def segMaxX (e : Seg) : Rat := rmax e.1.x e.2.x
 
-/-- insertion sort of tagged edges by (y at xm) -/
-def insertByY (xm : Rat) (t : Tagged × Rat) : List (Tagged × Rat) → List (Tagged × Rat)
+/-- the edge is not vertical and its x-extent contains the whole slab -/
+def spansSlab (e : Seg) (x0 x1 : Rat) : Bool :=
+  decide (e.1.x ≠ e.2.x) && decide (segMinX e ≤ x0) && decide (x1 ≤ segMaxX e)
+
+/-- the edge is vertical or its x-extent misses the interior of the slab -/
+def missesSlab (e : Seg) (x0 x1 : Rat) : Bool :=
+  decide (e.1.x = e.2.x) || decide (segMaxX e ≤ x0) || decide (x1 ≤ segMinX e)
+
+/-- insertion sort of tagged edges by their ordinate at `xm` -/
+def insertByY (xm : Rat) (t : Tagged) : List Tagged → List Tagged
   | [] => [t]
-  | u :: us => if t.2 ≤ u.2 then t :: u :: us else u :: insertByY xm t us
+  | u :: us => if yAt t.seg xm ≤ yAt u.seg xm then t :: u :: us else u :: insertByY xm t us
+
+def sortByY (xm : Rat) (ts : List Tagged) : List Tagged := ts.foldl (fun l t => insertByY xm t l) []
+
+/-- consecutive edges are (weakly) ordered at abscissa `x` -/
+def orderedAt (x : Rat) : List Tagged → Bool
+  | a :: b :: rest => decide (yAt a.seg x ≤ yAt b.seg x) && orderedAt x (b :: rest)
+  | _ => true
+
+/-- number of edges of atom `i` in the list, mod 2 -/
+def oddCount (i : Nat) (ts : List Tagged) : Bool := parity (ts.map (fun t => t.atom == i))
+
+/-- the membership vector produced by crossing exactly the edges `ts` from below -/
+def vecOf (n : Nat) (ts : List Tagged) : Array Bool := (Array.range n).map (fun i => oddCount i ts)
 
 inductive CheckResult
   | ok (cells thin : Nat)
   | fail (witness : Pt)
-  | unordered (x : Rat)        -- the slab's edges are not consistently ordered at both ends (checker bug or missed breakpoint)
+  | unordered (x : Rat)        -- a precondition of a slab does not hold (a bug of the checker, never of the input)
 deriving Repr, Inhabited
 
-structure SlabAcc where
-  cells : Nat := 0
-  thin : Nat := 0
-  bad : Option CheckResult := none
+/-- Is the gap between the `j`-th and the `(j+1)`-th edge of the slab (counted from below) a real cell?
+    `none`: the two edges coincide on the slab; `some thin`. -/
+def gapKind (tol xm : Rat) (below above : Option Tagged) : Option Bool :=
+  match below, above with
+  | some a, some b =>
+    let d := yAt b.seg xm - yAt a.seg xm
+    if d = 0 then none else some (decide (d ≤ tol))
+  | _, _ => some false
 
-/-- walk up the sorted edges of one slab, evaluating `f` on the parity vector in every gap -/
-def walkSlab (f : Array Bool → Bool) (tol : Rat) (xm : Rat) :
-    List (Tagged × Rat) → Array Bool → Option Rat → SlabAcc → SlabAcc
-  | [], v, prevY, acc =>
-    -- above the topmost edge: unbounded cell; evaluate once
-    match acc.bad with
-    | some _ => acc
-    | none =>
-      if f v then { acc with cells := acc.cells + 1 }
-      else { acc with bad := some (.fail { x := xm, y := (prevY.getD 0) + 1 }) }
-  | (t, y) :: rest, v, prevY, acc =>
-    match acc.bad with
-    | some _ => acc
-    | none =>
-      -- the gap below this edge (above prevY)
-      let acc :=
-        match prevY with
-        | none =>
-          if f v then { acc with cells := acc.cells + 1 }
-          else { acc with bad := some (.fail { x := xm, y := y - 1 }) }
-        | some py =>
-          if py = y then acc
-          else if y - py ≤ tol then { acc with thin := acc.thin + 1 }
-          else if f v then { acc with cells := acc.cells + 1 }
-          else { acc with bad := some (.fail { x := xm, y := (py + y) / 2 }) }
-      let v := v.modify t.atom (fun b => !b)
-      walkSlab f tol xm rest v (some y) acc
+/-- walk the gaps of one slab from below: `done` are the edges already crossed (in order), `rest` those
+    still above.  Returns the first gap where `f` fails (as the index of the gap), counting cells. -/
+def walkGaps (f : Array Bool → Bool) (n : Nat) (tol xm : Rat) : List Tagged → List Tagged → Nat × Nat → Option (List Tagged) ⊕ (Nat × Nat)
+  | done, [], (c, t) =>
+    if f (vecOf n done) then .inr (c + 1, t) else .inl (some done)
+  | done, b :: rest, (c, t) =>
+    match gapKind tol xm done.getLast? (some b) with
+    | none => walkGaps f n tol xm (done ++ [b]) rest (c, t)
+    | some true => walkGaps f n tol xm (done ++ [b]) rest (c, t + 1)
+    | some false =>
+      if f (vecOf n done) then walkGaps f n tol xm (done ++ [b]) rest (c + 1, t)
+      else .inl (some done)
+
+/-- a witness point inside the gap above the edges `done` at the middle of the slab -/
+def gapWitness (xm : Rat) (done rest : List Tagged) : Pt :=
+  match done.getLast?, rest.head? with
+  | some a, some b => { x := xm, y := (yAt a.seg xm + yAt b.seg xm) / 2 }
+  | some a, none => { x := xm, y := yAt a.seg xm + 1 }
+  | none, some b => { x := xm, y := yAt b.seg xm - 1 }
+  | none, none => { x := xm, y := 0 }
+
+/-- all checks of one slab -/
+def checkSlab (all : List Tagged) (f : Array Bool → Bool) (n : Nat) (tol x0 x1 : Rat) (acc : Nat × Nat) :
+    CheckResult ⊕ (Nat × Nat) :=
+  let xm := (x0 + x1) / 2
+  if !(all.all (fun t => spansSlab t.seg x0 x1 || missesSlab t.seg x0 x1)) then .inl (.unordered xm) else
+  let sorted := sortByY xm (all.filter (fun t => spansSlab t.seg x0 x1))
+  if !(orderedAt x0 sorted && orderedAt x1 sorted) then .inl (.unordered xm) else
+  match walkGaps f n tol xm [] sorted acc with
+  | .inr acc' => .inr acc'
+  | .inl (some done) => .inl (.fail (gapWitness xm done (sorted.drop done.length)))
+  | .inl none => .inl (.unordered xm)
+
+def checkSlabs (all : List Tagged) (f : Array Bool → Bool) (n : Nat) (tol : Rat) : List Rat → Nat × Nat → CheckResult
+  | x0 :: x1 :: rest, acc =>
+    if x1 - x0 ≤ tol then
+      -- a slab thinner than the tolerance is skipped and counted (never for tol = 0 and x0 < x1)
+      if x0 < x1 then checkSlabs all f n tol (x1 :: rest) (acc.1, acc.2 + 1) else .unordered x0
+    else
+      match checkSlab all f n tol x0 x1 acc with
+      | .inl r => r
+      | .inr acc' => checkSlabs all f n tol (x1 :: rest) acc'
+  | _, acc => .ok acc.1 acc.2
+
+/-- all edges lie between the outermost breakpoints -/
+def boundsOk (all : List Tagged) (xs : List Rat) : Bool :=
+  match xs.head?, xs.getLast? with
+  | some lo, some hi => all.all (fun t => decide (lo ≤ segMinX t.seg) && decide (segMaxX t.seg ≤ hi))
+  | _, _ => all.isEmpty
+
+def tagAll (atoms : Array (List Seg)) : List Tagged :=
+  (List.range atoms.size).flatMap (fun i => atoms[i]!.map (fun s => { seg := s, atom := i }))
+
+/-- breakpoints: every endpoint abscissa and every crossing abscissa inside both x-extents -/
+def breakpoints (all : List Tagged) : List Rat :=
+  let nonvert := (all.filter (fun t => t.seg.1.x ≠ t.seg.2.x)).toArray
+  let xsEnd := all.flatMap (fun t => [t.seg.1.x, t.seg.2.x])
+  let xsCross : List Rat := Id.run do
+    let mut out : List Rat := []
+    for i in [0:nonvert.size] do
+      for j in [i+1:nonvert.size] do
+        let e := nonvert[i]!.seg
+        let g := nonvert[j]!.seg
+        match crossX e g with
+        | none => pure ()
+        | some x =>
+          if segMinX e < x ∧ x < segMaxX e ∧ segMinX g < x ∧ x < segMaxX g then
+            out := x :: out
+    return out
+  sortDedup (xsEnd ++ xsCross)
 
 /-- The comparator.  `atoms[i]` is the edge list of atom `i` (usually one ring); `f` is the formula
     over the atoms' memberships that must hold at every point clear of the edges. -/
 def regionFormulaCheck (atoms : Array (List Seg)) (f : Array Bool → Bool) (tol : Rat) : CheckResult :=
-  let tagged : List Tagged :=
-    (List.range atoms.size).flatMap (fun i => atoms[i]!.map (fun s => { seg := s, atom := i }))
-  let nonvert := tagged.filter (fun t => t.seg.1.x ≠ t.seg.2.x)
-  let xsEnd := tagged.flatMap (fun t => [t.seg.1.x, t.seg.2.x])
-  let segs := nonvert.toArray
-  let xsCross : List Rat := Id.run do
-    let mut out : List Rat := []
-    for i in [0:segs.size] do
-      for j in [i+1:segs.size] do
-        let e := segs[i]!.seg
-        let g := segs[j]!.seg
-        -- only crossings within both x-extents matter
-        match crossX e g with
-        | none => pure ()
-        | some x =>
-          if rmin e.1.x e.2.x < x ∧ x < rmax e.1.x e.2.x ∧ rmin g.1.x g.2.x < x ∧ x < rmax g.1.x g.2.x then
-            out := x :: out
-    return out
-  let xs := sortDedup (xsEnd ++ xsCross)
-  let nAtoms := atoms.size
-  let rec slabs : List Rat → SlabAcc → SlabAcc
-    | x0 :: x1 :: rest, acc =>
-      match acc.bad with
-      | some _ => acc
-      | none =>
-        if x1 - x0 ≤ tol then slabs (x1 :: rest) { acc with thin := acc.thin + 1 } else
-        let xm := (x0 + x1) / 2
-        let sp := nonvert.filter (fun t => spans t.seg x0 x1)
-        let sorted := sp.foldl (fun l t => insertByY xm (t, yAt t.seg xm) l) []
-        -- consistency: the same order (weakly) at both ends of the slab
-        let okEnds := Id.run do
-          let arr := sorted.toArray
-          let mut ok := true
-          for i in [0:arr.size - 1] do
-            let a := arr[i]!.1.seg
-            let b := arr[i+1]!.1.seg
-            if !(yAt a x0 ≤ yAt b x0 ∧ yAt a x1 ≤ yAt b x1) then ok := false
-          return ok
-        if !okEnds then { acc with bad := some (.unordered xm) } else
-        let acc := walkSlab f tol xm sorted (Array.replicate nAtoms false) none acc
-        slabs (x1 :: rest) acc
-    | _, acc => acc
-  -- outside the outermost breakpoints every membership is false
-  if !(f (Array.replicate nAtoms false)) then
-    .fail { x := (xs.head?.getD 0) - 1, y := 0 }
-  else
-    let acc := slabs xs {}
-    match acc.bad with
-    | some r => r
-    | none => .ok acc.cells acc.thin
+  let all := tagAll atoms
+  let xs := breakpoints all
+  let n := atoms.size
+  if !boundsOk all xs then .unordered 0 else
+  -- left and right of all edges every membership is false
+  if !(f (vecOf n [])) then .fail { x := (xs.head?.getD 0) - 1, y := 0 } else
+  checkSlabs all f n tol xs (0, 0)
 
 end Gbo.Spec
